@@ -24,7 +24,7 @@ FUNCTIONS = [
     ("thejoker/multiproc_helpers.py", "rejection_sample_helper"), ("thejoker/multiproc_helpers.py", "iterative_rejection_helper"),
     ("thejoker/multiproc_helpers.py", "make_full_samples"), ("thejoker/thejoker.py", "TheJoker.marginal_ln_likelihood"),
     ("thejoker/thejoker.py", "TheJoker.rejection_sample"), ("thejoker/thejoker.py", "TheJoker.iterative_rejection_sample"),
-    ("thejoker/samples.py", "JokerSamples.write"),
+    ("thejoker/samples.py", "JokerSamples.write"), ("thejoker/samples_helpers.py", "write_table_hdf5"),
 ]
 ASSUMPTIONS = [
     "a fault is an exception raised by one environment call (at most one per run); hard process death and crashes inside real worker processes are outside the claim",
@@ -45,6 +45,12 @@ def shapes(tier):
         for src in ("filename", "object", "inmem"):
             for nb in ((None,) if tier == "quick" and src != "object" else (None, 2)):
                 out.append({"entry": entry, "src": src, "n_batches": nb, "pool": 2 if nb is None else 1, "N": 2})
+    # the cache-writing step with the real write_table_hdf5 (every h5py / os operation a crash point)
+    for n in (1, 2):
+        out.append({"family": "cache_write", "n": n, "interrupt": n == 2, "entry": "marginal", "src": "object", "n_batches": None, "pool": 1, "N": 2})
+    # the failing step may be an interrupt (KeyboardInterrupt: not an Exception subclass) -- also an exit path
+    for entry in ("marginal", "rejection", "iterative"):
+        out.append({"entry": entry, "src": "object", "n_batches": None, "pool": 1, "N": 2, "interrupt": True})
     if tier == "thorough":
         # two crash points in one run (the second one after the first, e.g. inside the clean-up it triggers)
         for entry in ("marginal", "rejection", "iterative"):
@@ -79,6 +85,8 @@ def _harness(S, shape):
         core.assume(f2 > fault_at)
         core.assume(f2 <= 90)
         w.fault_at2 = f2
+    if shape.get("interrupt"):
+        w.fault_interrupt = core.boolean("fault_is_interrupt")
     N = shape["N"]
     lib, lnp = S.library(N, with_lnp=True)
     S.as_file(lib, lnp)            # the user's file (exists in every shape; only used when src == filename)
@@ -91,9 +99,10 @@ def _harness(S, shape):
     first = {"raised": None, "result": None}
     try:
         first["result"] = _call(S, joker, shape, data, lib, lnp)
-    except Exception as e:
+    except (Exception, env.InjectedInterrupt) as e:
         first["raised"] = e
     first["fault"] = w.fault_site
+    first["fault_kind"] = w.fault_kind
     first["fault2"] = w.fault_site2
     w.fault_at2 = None
     first["files"] = sorted(w.files)
@@ -123,9 +132,106 @@ def _user_events_ok(log):
     return True
 
 
+class _FaultLog(list):
+    """event log of the h5py / os model of checks.c12 whose every entry is also a crash point of the World"""
+    def __init__(self, w):
+        list.__init__(self)
+        self.w = w
+
+    def append(self, e):
+        self.w.call("h5py." + str(e[0]) if e[0] not in ("remove", "replace") else "os." + str(e[0]))
+        list.append(self, e)
+        self.w.event("h5", *e)
+
+
+def _run_cache_write(shape, res, sink):
+    """the cache-writing step itself: real utils.tempfile_decorator around the real samples_helpers.write_table_hdf5,
+    on one file-system model (temp-file creation, h5py file/group/dataset operations, os.remove/unlink), every
+    operation a crash point.  Whatever fails, nothing but the user's files may remain."""
+    from checks import c12
+    from symx import stack, loader
+    w = env.World()
+    st = stack.Stack(world=w, load=("prior_helpers", "likelihood_helpers", "utils", "samples"))
+    hm = types.SimpleNamespace(files=w.files, log=_FaultLog(w))
+    sh = c12._helpers_shims(st, hm)
+    mod = loader.load("thejoker/samples_helpers.py", sh, "thejoker.samples_helpers")
+    JS = st.samples.JokerSamples
+    n = shape["n"]
+    seen = {}
+
+    def func(prior_samples_file, tag=None):
+        w.call("func")
+        f = w.files.get(prior_samples_file)
+        seen["file"] = f
+        seen["rows"] = list(f.items["samples"].rows) if isinstance(f, c12.HFile) and "samples" in f.items else None
+        return "done"
+    wrapped = st.utils.tempfile_decorator(func)
+
+    def harness():
+        fault_at = core.integer("fault_at")
+        core.assume(fault_at >= -1)
+        core.assume(fault_at <= 40)
+        w.reset(fault_at)
+        hm.files = w.files
+        del hm.log[:]
+        seen.clear()
+        if shape.get("interrupt"):
+            w.fault_interrupt = core.boolean("fault_is_interrupt")
+        w.files["user_lib.hdf5"] = env.FileModel("user_lib.hdf5", user=True)
+        rows = [("row", i) for i in range(n)]
+        tbl = c12.Tbl([dict(c12.MENU[0])], {"poly_trend": 1, "n_offsets": 0}, rows)
+        obj = object.__new__(JS)
+        obj.write = lambda output, overwrite=False, append=False: mod.write_table_hdf5(
+            tbl, output, path="samples", compression=False, append=append, overwrite=overwrite, serialize_meta=True, metadata_conflicts="error", maxshape=(None,))
+        out = {"raised": None, "result": None}
+        try:
+            out["result"] = wrapped(prior_samples_file=obj)
+        except (Exception, env.InjectedInterrupt) as e:
+            out["raised"] = e
+        out.update(fault=w.fault_site, kind=w.fault_kind, files=sorted(w.files), rows=rows, seen=dict(seen), sites=list(w.sites))
+        return out
+    ex = core.Explorer(max_paths=2000)
+    twin = False
+    n_fault = 0
+    for path in ex.paths(harness):
+        core.Ctx.cur = path.ctx
+        try:
+            r, _, _ = path.check(core.SB(z3.BoolVal(False)))
+            twin = twin or r == "sat"
+            if path.raised is not None:
+                if isinstance(path.raised, core.UnsupportedByShim):
+                    raise path.raised
+                sink.check(path, "cache_write.harness", core.SB(z3.BoolVal(False)), site="harness", describe=lambda m: {"raised": repr(path.raised)[:300]})
+                continue
+            o = path.result
+            fault = o["fault"]
+            site = fault[1] if fault else None
+            k = o["sites"][:fault[0]].count(site) if fault else None
+            desc = lambda m: {"fault_site": site, "per_site_index": k, "interrupt": o["kind"] == "interrupt", "raised": repr(o["raised"])[:200], "files_left": o["files"]}
+            tag = "cache_write." + (site or "nofault")
+            if fault:
+                n_fault += 1
+                sink.check(path, "propagates", core.SB(z3.BoolVal(o["raised"] is not None)), site=tag, describe=desc)
+            else:
+                ok = o["raised"] is None and o["result"] == "done" and o["seen"].get("rows") == o["rows"]
+                sink.check(path, "cache_holds_the_library", core.SB(z3.BoolVal(bool(ok))), site=tag, describe=desc)
+            if site not in ("os.unlink",):
+                left = [p for p in o["files"] if p != "user_lib.hdf5"]
+                sink.check(path, "no_leaked_cache_file", core.SB(z3.BoolVal(not left)), site=tag, describe=desc)
+            sink.check(path, "user_file_untouched", core.SB(z3.BoolVal("user_lib.hdf5" in o["files"])), site=tag, describe=desc)
+        finally:
+            core.Ctx.cur = None
+    res["twin_ok"] = twin and n_fault > 0
+    res["notes"].append("crash points explored in this shape: %d" % n_fault)
+    fill_explorer(res, ex)
+    return res
+
+
 def run_shape(shape, tier):
     res = new_result(shape)
     sink = VCSink(res, PROPERTY)
+    if shape.get("family") == "cache_write":
+        return _run_cache_write(shape, res, sink)
     S = groupa.Setup(with_api=True)
     ex = core.Explorer(max_paths=6000, max_seconds=1200)
     twin = False
@@ -143,7 +249,7 @@ def run_shape(shape, tier):
             fault = f["fault"]
             site = fault[1] if fault else None
             per_site_k = info["sites"][:fault[0]].count(site) if fault else None
-            desc = lambda m: {"fault_site": site, "per_site_index": per_site_k, "second_fault": (f.get("fault2") or [None, None])[1], "global_index": fault[0] if fault else None,
+            desc = lambda m: {"fault_site": site, "per_site_index": per_site_k, "interrupt": f.get("fault_kind") == "interrupt", "second_fault": (f.get("fault2") or [None, None])[1], "global_index": fault[0] if fault else None,
                               "raised": repr(f["raised"])[:200], "second_raised": repr(s2["raised"])[:200]}
             tag = "%s" % (site or "nofault")
             if fault:
@@ -197,11 +303,16 @@ class Boom(Exception):
     pass
 
 
+class BoomInterrupt(KeyboardInterrupt):
+    pass
+
+
 class FakeHelper:
     """picklable stand-in for the compiled kernel (module level so that real worker processes can import it)"""
     packed_order = ["P", "e", "omega", "M0", "s"]
     fail = {"kernel.ll": None, "kernel.post": None}
     count = {"kernel.ll": 0, "kernel.post": 0}
+    boom = Boom
 
     def __init__(self):
         import astropy.units as u
@@ -214,7 +325,7 @@ class FakeHelper:
         k = FakeHelper.count[site]
         FakeHelper.count[site] += 1
         if FakeHelper.fail[site] is not None and k == FakeHelper.fail[site]:
-            raise Boom("injected fault in %s #%d" % (site, k))
+            raise FakeHelper.boom("injected fault in %s #%d" % (site, k))
 
     def batch_marginal_ln_likelihood(self, chunk):
         import numpy as np
@@ -251,11 +362,17 @@ def replay(cand):
     shape = cand["shape"]
     m = cand.get("model") or {}
     site, k = m.get("fault_site"), m.get("per_site_index")
+    Boom_ = BoomInterrupt if m.get("interrupt") else Boom
     if site in ("os.unlink", "validate_prepare_data", "h5py.getitem", "worker"):
         # map the unreplayable crash points onto the nearest replayable one in the same region
         site = {"worker": "kernel.ll", "h5py.getitem": "h5py.File", "validate_prepare_data": None, "os.unlink": None}[site]
         if site is None:
             return {"reproduced": False, "detail": "crash point not replayable on the real build"}
+    if shape.get("family") == "cache_write" and site is not None:
+        site = {"h5py.open": "h5py.File", "h5py.truncate": "h5py.File", "h5py.create": "h5py.create", "h5py.create_group": "h5py.create", "h5py.assign": "h5py.create",
+                "h5py.resize": "h5py.create", "h5py.delete": "h5py.create", "os.remove": "os.remove", "os.replace": "h5py.create", "func": "tables.open_file"}.get(site, site)
+        if site == "tables.open_file":
+            k = 0
     tmpd = tempfile.mkdtemp(prefix="verif_c13_")
     userd = tempfile.mkdtemp(prefix="verif_c13_user_")
     old_tmp = tempfile.tempdir
@@ -276,6 +393,7 @@ def replay(cand):
         sha0 = hashlib.sha256(open(fn, "rb").read()).hexdigest()
         FakeHelper.fail = {"kernel.ll": None, "kernel.post": None}
         FakeHelper.count = {"kernel.ll": 0, "kernel.post": 0}
+        FakeHelper.boom = Boom_
         helper = FakeHelper()
         counters = {}
 
@@ -284,7 +402,7 @@ def replay(cand):
                 c = counters.get(name, 0)
                 counters[name] = c + 1
                 if active[0] and site == name and c == k:
-                    raise Boom("injected fault in %s #%d" % (name, c))
+                    raise Boom_("injected fault in %s #%d" % (name, c))
                 return real(*a, **kw)
             return f
         active = [True]
@@ -299,7 +417,7 @@ def replay(cand):
                 c = counters.get("pool.map", 0)
                 counters["pool.map"] = c + 1
                 if active[0] and site == "pool.map" and c == k:
-                    raise Boom("injected fault in pool.map #%d" % c)
+                    raise Boom_("injected fault in pool.map #%d" % c)
                 return [f(t) for t in tasks]
 
             def close(self):
@@ -320,9 +438,13 @@ def replay(cand):
                 c = counters.get("h5py.File", 0)
                 counters["h5py.File"] = c + 1
                 if active[0] and site == "h5py.File" and c == k:
-                    raise Boom("injected fault in h5py.File #%d" % c)
+                    raise Boom_("injected fault in h5py.File #%d" % c)
                 super().__init__(*a, **kw)
         patch(h5py, "File", FaultyFile)
+        patch(h5py.Group, "create_dataset", faulty("h5py.create", h5py.Group.create_dataset))
+        if site == "os.remove":
+            import thejoker.samples_helpers as tsh
+            patch(tsh.os, "remove", faulty("os.remove", tsh.os.remove))
         if site in ("kernel.ll", "kernel.post"):
             FakeHelper.fail[site] = k
         patch(tjm.TheJoker, "_make_joker_helper", lambda self, data: helper)
@@ -342,7 +464,7 @@ def replay(cand):
         raised = None
         try:
             call()
-        except Exception as e:
+        except (Exception, BoomInterrupt) as e:
             raised = e
         fired = site is not None and (counters.get(site, 0) > k if site not in ("kernel.ll", "kernel.post") else FakeHelper.count[site] > k)
         if site is not None and not fired:
